@@ -137,6 +137,12 @@ pub fn candidates(
     (out, alphabet)
 }
 
+/// Expression → candidate paths that are always tried with it.
+pub const PINNED_PATHS: &[(&str, &[&str])] = &[("/x{a/**,**/b}", &["/xa", "/xa/b", "/x/b", "/xa/c"])];
+
+/// Combinators that are always queried (when the stream reaches their first member).
+pub const PINNED_ANY: &[&[&str]] = &[&["**/b", "", "a/**"]];
+
 impl<'e> Case<'e> {
     /// Builds the glob (guarded) and gathers everything the group-A monitors need. Returns `None`
     /// if the expression does not build (or panics while building; C05 judges that).
@@ -148,7 +154,18 @@ impl<'e> Case<'e> {
         let ast = parse::parse(expr).ok();
         let pattern = glob.verif_program_pattern().to_string();
         let hir = rhir::parse(&pattern);
-        let (paths, alphabet) = candidates(ast.as_ref(), hir.as_ref(), rng, budget);
+        let (mut paths, alphabet) = candidates(ast.as_ref(), hir.as_ref(), rng, budget);
+        // Candidate paths pinned to particular corpus expressions (witnesses of listed findings,
+        // so that every listed finding is exercised by every run whatever the seed).
+        for (e, pinned) in PINNED_PATHS {
+            if *e == expr {
+                for q in pinned.iter() {
+                    if !paths.iter().any(|x| x == q) {
+                        paths.push(q.to_string());
+                    }
+                }
+            }
+        }
         let model = ast.clone().map(ModelPattern::single);
         Some(Case {
             expr,
